@@ -98,6 +98,11 @@ func runC03(c *core.Ctx) {
 		if w.Hist%5 != 0 {
 			k.Do("commit-all")
 		}
+		if w.Hist%24 == 10 {
+			k.BoundaryFiles("blk/")
+			k.goit("add", "blk")
+			k.goit("commit", "-m", "objects at block boundaries")
+		}
 		if w.Hist%12 == 5 {
 			// a command that fails half-way: a directory whose first file is large and whose last entries cannot be
 			// read (a dangling link, a link to a directory). Whatever was staged before the failure must be stored.
@@ -292,6 +297,10 @@ func runC18(c *core.Ctx) {
 			w.GoitBin = c.GoitRace // tripwire: race detector + checkptr
 			c.Count("C18.histories-on-race-binary")
 			onRace = true
+		}
+		if k.Escape {
+			// an existing file right outside the working tree, with a path shorter than the working directory's
+			w.Edit("write", "../o", []byte("outside\n"))
 		}
 		switch w.Hist % 8 {
 		case 0: // commands before init, then fresh repository without identity
